@@ -19,7 +19,7 @@ EXPLANATION = (
     "is `new Field(*this)`; R11.2 clone(): _create._do(true) then copy_legal(msg), _header->copy_legal(msg->_header), "
     "_trailer->copy_legal(msg->_trailer), all with force=false, on every path; copy_legal: group loop (create_group(true), recursive "
     "copy_legal, append) dominates the count field's copy; move_legal: source group slot and field slot := nullptr after the transfer, "
-    "clear_positions() on every path; R11.3 copy_legal and move_legal test the same selection predicate. NOT decided: byte equality.")
+    "clear_positions() on every path; R11.3 copy_legal and move_legal test the same selection predicate. R11.4 add_field(BaseField*) refuses a field only when has() is false, never on its position. NOT decided: byte equality.")
 
 MB = 'FIX8::MessageBase::'
 
@@ -137,5 +137,32 @@ def run(ctx):
     ctx.check(pcopy is not None and pcopy == pmove, 'R11.3', MB + 'copy_legal|move_legal#predicate', cp.loc,
               'copy_legal and move_legal select fields with the same predicate: ' + str(pcopy)[:120],
               'selection predicates differ: copy_legal `%s` vs move_legal `%s`' % (pcopy, pmove))
+    # ---------------- R11.4 the field transfer primitive accepts every LEGAL field: legality is membership in the trait table, not a position
+    # (the position-less user fields of a schema built with -F are legal and have position 0)
+    afs = [g for g in prog.fns(MB + 'add_field') if len(g.param_ids) == 1 and 'BaseField *' in g.sig]
+    ctx.need(len(afs) == 1, 'MessageBase::add_field(BaseField*) not found')
+    af = afs[0]
+    ctx.saw(af)
+    thr = [n for n in af.all_nodes() if n.k == 'CXXThrowExpr' and af.cfg.has_vertex(n)]
+    ctx.need(thr, 'add_field(BaseField*): InvalidField throw not found')
+    pos_dep = None
+    has_gate = False
+    for t in thr:
+        for a, pol in q.controlling_atoms(af, t):
+            if any(x.is_call and x.callee is not None and x.callee.get('n') == 'has' for x in a.walk()) and pol is False:
+                has_gate = True
+            reads_pos = any(x.is_call and x.callee is not None and x.callee.get('n') == 'getPos' for x in a.walk())
+            for x in a.walk():
+                if x.k == 'DeclRefExpr' and x.decl and x.decl.get('sc') == 'local':
+                    for (dn, kind, val) in q.local_defs(af, x.declid):
+                        if val is not None and any(y.is_call and y.callee is not None and y.callee.get('n') == 'getPos' for y in val.walk()):
+                            reads_pos = True
+            if reads_pos:
+                pos_dep = a
+    ctx.check(has_gate and pos_dep is None, 'R11.4', MB + 'add_field/BaseField*#legal-by-membership', thr[0].loc,
+              'a field is refused only when the trait table does not contain it (has() false)',
+              'add_field(BaseField*) refuses a field on `%s`: getPos() is 0 for a legal field without a position (the -F user fields 9991/9999), so clone, copy_legal and '
+              'move_legal of a message carrying one throw InvalidField' % (pos_dep.text() if pos_dep is not None else 'a test other than has()'))
+    ctx.floor('R11.4', 1)
     ctx.floor('R11.1', 16)
     ctx.floor('R11.2', 10)
